@@ -373,9 +373,10 @@ pub fn good_string(a: &[u32]) -> bool {
 pub fn smt_char_as_string(x: u32) -> String {
     if x == '"' as u32 {
         "\"\"".to_string()
-    } else if x >= 32 && x < 127 {
+    } else if x >= 32 && x < 127 && x != '\\' as u32 {
         char::from_u32(x).unwrap().to_string()
-    } else if x < 32 || x == 127 {
+    } else if x <= 127 {
+        // non-printable ASCII, and backslash (printed raw it could start an escape sequence)
         format!("\\u{{{:02x}}}", x)
     } else if x < 0x10000 {
         format!("\\u{:04x}", x)
@@ -393,9 +394,10 @@ impl fmt::Display for SmtString {
         for &x in self.s.iter() {
             if x == '"' as u32 {
                 write!(f, "\"\"")?;
-            } else if x >= 32 && x < 127 {
+            } else if x >= 32 && x < 127 && x != '\\' as u32 {
                 write!(f, "{}", char::from_u32(x).unwrap())?;
-            } else if x < 32 || x == 127 {
+            } else if x <= 127 {
+                // non-printable ASCII, and backslash (printed raw it could start an escape sequence)
                 write!(f, "\\u{{{:02x}}}", x)?;
             } else if x < 0x10000 {
                 write!(f, "\\u{:04x}", x)?;
@@ -410,9 +412,10 @@ impl fmt::Display for SmtString {
 ///
 /// Convert integer x (interpreted as a Unicode codepoint) to a string in the SMT syntax:
 ///
-/// 1) printable ASCII characters (other than double quote) are unchanged
+/// 1) printable ASCII characters (other than double quote and backslash) are unchanged
 /// 2) a double quote is converted to two double quotes
-/// 3) non-printable ASCII characters are converted to "\u{xx}" (two hexadecimal digits)
+/// 3) non-printable ASCII characters and the backslash are converted to "\u{xx}" (two hexadecimal digits),
+///    so that the output never contains a backslash that does not start an escape sequence
 /// 4) other characters are printed as "\uxxxx" or "\u{xxxxx}"
 /// 5) if x is outside the valid SMT range (i.e., x > 0x2FFFF) then it's
 ///    converted to the non-SMT compliant string \u{xxxxxx} with as many hexadecimal
@@ -421,9 +424,10 @@ impl fmt::Display for SmtString {
 pub fn char_to_smt(x: u32) -> String {
     if x == '"' as u32 {
         "\"\"".to_string()
-    } else if x >= 32 && x < 127 {
+    } else if x >= 32 && x < 127 && x != '\\' as u32 {
         char::from_u32(x).unwrap().to_string()
-    } else if x < 32 || x == 127 {
+    } else if x <= 127 {
+        // non-printable ASCII, and backslash (printed raw it could start an escape sequence)
         format!("\\u{{{:02x}}}", x)
     } else if x < 0x10000 {
         format!("\\u{:04x}", x)
